@@ -128,11 +128,15 @@ func GetInnerFunc(mode int, start uintptr) (uintptr, error) {
 		if inst.Op.String() == CallInsName || inst.Op.String() == CallInsName1 {
 			rAddr, ok := (inst.Args[0]).(arm64asm.PCRel)
 			if ok {
+				var target uintptr
 				if rAddr >= 0 {
-					return start + uintptr(curLen) + uintptr(rAddr), nil
+					target = start + uintptr(curLen) + uintptr(rAddr)
+				} else if curLen+int(rAddr) < 0 {
+					target = start + uintptr(curLen) - uintptr(-rAddr)
 				}
-				if curLen+int(rAddr) < 0 {
-					return start + uintptr(curLen) - uintptr(-rAddr), nil
+				// wrapper 在调用真正的函数体之前, 可能先调用 runtime 的辅助函数(比如拷贝较大的值接收体/参数时的 duffcopy)
+				if target != 0 && !isRuntimeHelper(target) {
+					return target, nil
 				}
 			}
 		}
